@@ -205,7 +205,7 @@ Proof. vm_compute. reflexivity. Qed.
 Definition rec_live : live_frame := mkLive [114;46;112;121] 7 [102] [32;32;102;40;41;10].
 Definition rec_exc : live_exc := mkExc L_builtins [69] [69] (Some []) [69].
 
-(* the two recorded reasons on the formatting side: a display-time suggestion, a failing __str__ *)
+(* the recorded reason on the formatting side: a display-time suggestion *)
 Definition hint_exc : live_exc :=      (* AttributeError: no attribute 'bluch'. Did you mean: 'blech'? *)
   mkExc L_builtins [65;69] [65;69] (Some [110;111;32;98;108;117;99;104])
         ([65;69] ++ L_colon ++ [110;111;32;98;108;117;99;104] ++ L_hint ++ [39;98;108;101;99;104;39;63]).
@@ -217,10 +217,9 @@ Lemma format_refuted_hint :
                ei_text py_cc fs e <> std_text (std_tb py_cc fs e).
 Proof. exists [rec_live], hint_exc. split; vm_compute; discriminate. Qed.
 
-Lemma format_refuted_str :
-  exists fs e, hint_of e <> None /\
-               ei_text py_cc fs e <> std_text (std_tb py_cc fs e).
-Proof. exists [rec_live], nostr_exc. split; vm_compute; discriminate. Qed.
+(* an exception whose __str__ raises is an ordinary case since the fix: *)
+Lemma str_failure_plain : plain_exc nostr_exc = true /\ ex_str nostr_exc = None.
+Proof. split; reflexivity. Qed.
 
 (* ---- witnesses used by the Examples of Props/C16.v ---------------------------------------------------- *)
 From Coq Require Import String.
